@@ -7,7 +7,7 @@ TAGS = ['status', 'cancel', 'taskret', 'tfin', 'caught', 'spawn', 'cleanup', 'st
 RULE = ('(a) scope trees: nested (until-)scopes (depth <= 3, <= 3 children each, volatile or delayed), bodies and children that '
         'sleep/raise (regular and privileged types)/return, cancels from inside and from a separate activity after t time units '
         'and k postponements, deadlines and flags on a coarse time grid, everything wrapped in handlers that log what they catch; '
-        '(b) random valid whole-API programs (no usage errors); (c) one task cancelled repeatedly with different tokens / closed and then cancelled, before its first turn or later, awaited by several activities; (d) payloads that swallow their own cancellation (`except CancelTask`) or clean up with awaits, cancelled 1-3 times at different times; (e) awaiters that start waiting for a task before its first turn, which is then cancelled before it starts; non-trivial = a task was cancelled or its status probed')
+        '(b) random valid whole-API programs (no usage errors); (c) one task cancelled repeatedly with different tokens / closed and then cancelled, before its first turn or later, awaited by several activities; (d) payloads that swallow their own cancellation (`except CancelTask`) or clean up with awaits, cancelled 1-3 times at different times; (e) awaiters that start waiting for a task before its first turn, which is then cancelled before it starts; (f) tasks closed by their scope inside `try/finally` whose clean-up probes the status and may raise; non-trivial = a task was cancelled or its status probed')
 
 
 def nontrivial(impl):
@@ -95,13 +95,75 @@ def early_awaiter(rng):
     return ['scenario', ['debug', 1], ['start', 0], ['flags', 1], ['locks', 0], ['roots', owner] + others + late]
 
 
-SOURCES = [scopesuite.scope_tree, scopesuite.valid_scenario, scopesuite.cancel_cleanup, repeated_cancel, suppressed_cancel, early_awaiter]
+def closed_cleanup(rng):
+    """a task is closed by its scope (the body fails, the deadline passes, or it is volatile and the body ends) while it is
+    suspended inside `try ... finally`; the clean-up probes the task's status, logs and - in half of the cases - raises.
+    The status is probed before, inside the clean-up and afterwards, and the task is awaited by others"""
+    from fractions import Fraction as F
+    vol = rng.random() < 0.3
+    cl = [['status', 0], ['log', 5]] + ([['raise', rng.choice([1, 2, 4])]] if rng.random() < 0.5 else [])
+    task = ['prog', ['log', 1], ['finally', ['body', ['sleep', rng.choice([5, 10])]], ['cleanup'] + cl], ['ret', 7]]
+    un = ['none'] if vol or rng.random() < 0.5 else ['delay', rng.choice([1, 2])]
+    body = [['spawn', 0, 0, rng.choice([None, None, F(1, 2)]), None, vol, task], ['status', 0], ['sleep', rng.choice([1, 2])], ['status', 0]]
+    if un == ['none'] and not vol:
+        body += [['raise', 0]]
+    elif un != ['none']:
+        body += [['sleep', 20]]
+    main = ['prog', ['try', ['body', ['scope', 0, un] + body], ['handler', ['pats', 'concurrent', 'anyException'], ['body', ['log', 20]]]],
+            ['status', 0], ['sleep', 1], ['status', 0]]
+    watcher = lambda i, d: ['prog', ['sleep', d], ['try', ['body', ['awaittask', 0], ['log', 30 + i]],
+                                                     ['handler', ['pats', 'taskCancelled', 'taskClosed', 'concurrent', 'anyException'], ['body', ['log', 40 + i]]]],
+                            ['status', 0]]
+    roots = [main] + [watcher(i, d) for i, d in enumerate(rng.sample([F(1, 2), 1, 2, 3, 5], rng.randint(0, 2)))]
+    return ['scenario', ['debug', 1], ['start', 0], ['flags', 1], ['locks', 0], ['roots'] + roots]
+
+
+def cleanup_raises(sc, t):
+    """does the program of task `t` contain a `finally` whose clean-up raises?"""
+    def has_raise(x):
+        return isinstance(x, list) and bool(x) and (x[0] == 'raise' or any(has_raise(e) for e in x))
+
+    def fin(x):
+        if not isinstance(x, list) or not x:
+            return False
+        if x[0] == 'finally' and has_raise(x[2]):
+            return True
+        return any(fin(e) for e in x)
+
+    def spawns(x):
+        if isinstance(x, list) and x:
+            if x[0] == 'spawn' and x[2] == t and fin(x[6]):
+                return True
+            return any(spawns(e) for e in x)
+        return False
+    return spawns(sc)
+
+
+def refine(msg, impl, model, sc):
+    """F18: the only status step that is off is cancelled (closed) -> failed, the task was closed inside a `finally` whose
+    clean-up raises, and the model - which mirrors Task.__close__ and the payload wrapper - says the same"""
+    import re
+    m = re.match(r'task (\d+): status went backwards or changed after completion: \[(.*)\]', msg)
+    if not m:
+        return None
+    codes = [int(x) for x in m.group(2).split(',') if x.strip()]
+    rank = {1: 0, 2: 1, 4: 2, 8: 2, 16: 2}
+    off = [(a, b) for a, b in zip(codes, codes[1:]) if rank.get(a, 9) > rank.get(b, 9) or (rank.get(a) == 2 and a != b)]
+    t = int(m.group(1)) - 1000
+    closed_in_cleanup = any(e.split(':')[2] == str(1000 + t) and e.split(':')[3] == 'cleanup' and e.split(':')[4:5] == ['1,11']
+                            for e in impl['events'])
+    return {'only_cancelled_to_failed': bool(off) and all(p == (4, 8) for p in off),
+            'closed_inside_finally_whose_cleanup_raises': cleanup_raises(sc, t) and closed_in_cleanup,
+            'as_modelled': model is not None and model['events'] == impl['events']}
+
+
+SOURCES = [scopesuite.scope_tree, scopesuite.valid_scenario, scopesuite.cancel_cleanup, repeated_cancel, suppressed_cancel, early_awaiter, closed_cleanup]
 
 
 def run(tier, seed, drv):
     return msuite.standard_run(PID, 'C06', TAGS, tier, seed, drv, SOURCES, nontrivial=nontrivial, rule=RULE,
-                               n_quick=200, n_thorough=6000)
+                               n_quick=200, n_thorough=6000, refine=refine)
 
 
 def replay(data, drv):
-    return msuite.standard_replay(PID, 'C06', TAGS, data, drv)
+    return msuite.standard_replay(PID, 'C06', TAGS, data, drv, refine=refine)
